@@ -71,8 +71,8 @@ def fresh_session():
     S.Settings._Settings__instance = None
 
 
-def observe():
-    s = _q().get_settings()
+def observe(handle=None):
+    s = handle if handle is not None else _q().get_settings()
     vec = [("error_method", s.error_method), ("print_style", s.print_style), ("unit_style", s.unit_style),
            ("significant_figures.mode", s.sig_fig_mode), ("significant_figures.value", s.sig_fig_value),
            ("monte_carlo_sample_size", s.monte_carlo_sample_size), ("plot_dimensions", s.plot_dimensions)]
@@ -183,10 +183,15 @@ def run_op(op):
 def run_history(ops):
     fresh_session()
     fresh = observe()
+    handle = _q().get_settings()          # a handle the user keeps for the whole session
     out = []
     for op in ops:
         e = run_op(op)
-        out.append([op, e, observe()])
+        now = observe()
+        out.append([op, e, now])
+        if observe(handle) != now:
+            out[-1].append("the settings object obtained at the start of the session reads {} after this call".format(
+                observe(handle)))
     return fresh, out
 
 
@@ -273,7 +278,7 @@ def coq_exn(e):
 
 def coq_session(fresh, hist):
     return "({}, {})".format(coq_store(fresh), coq_list(
-        ["({}, {}, {})".format(coq_op(op), coq_exn(e), coq_store(obs)) for op, e, obs in hist]))
+        ["({}, {}, {})".format(coq_op(op), coq_exn(e), coq_store(obs)) for op, e, obs in (st[:3] for st in hist)]))
 
 
 def coq_wrapper_case(case, e, obs):
@@ -308,9 +313,9 @@ def correspondence(ctx):
         sessions.append((ops, fresh, hist))
         res.evaluations += 1
         res.traces += 1
-        for op, e, _ in hist:
+        for op, e, _ in (st[:3] for st in hist):
             res.count(op[0] + ":" + (op[1] if op[0] == "set" else "") + ":" + ("ok" if e is None else e))
-        if any(e is not None for _, e, _ in hist) and any(e is None for _, e, _ in hist):
+        if any(e is not None for _, e, _ in (st[:3] for st in hist)) and any(e is None for _, e, _ in (st[:3] for st in hist)):
             res.nontrivial.add(core.canonical_key("h", ops))
     for i in range(n_wrap):
         c = gen_wrapper_case(rng)
@@ -429,7 +434,10 @@ def check_history_oracle(ops, fresh_vec):
     if fresh != fresh_vec:
         return "a new session starts with {} but a fresh interpreter has {}".format(fresh, fresh_vec)
     state = dict((k, v) for k, v in fresh_vec)
-    for i, (op, e, obs) in enumerate(hist):
+    for i, step in enumerate(hist):
+        op, e, obs = step[:3]
+        if len(step) > 3:
+            return "step {} {}: one default / one store: {}, q.get_settings() reads {}".format(i, op, step[3], obs)
         exp, accepted = expected_after(state, op, dict((k, v) for k, v in fresh_vec))
         got = dict((k, v) for k, v in obs)
         if accepted and e is not None:
